@@ -126,6 +126,7 @@ pub struct Obs {
     pub tasks: u32,
     pub max_pending_gates: u32,
     pub cancel_with_live_tasks: bool,
+    pub stale_wakes: u64,
     /// threads still unfinished when the caller's closure returned (thread mode)
     pub unfinished_at_return: u32,
     pub log_hash: u64,
@@ -175,6 +176,7 @@ pub fn run_sim(prog: &Prog, kind: Kind, plan: &Plan, strat: Strat, seed: u64, re
                 tasks: 0,
                 max_pending_gates: 0,
                 cancel_with_live_tasks: false,
+                stale_wakes: 0,
                 unfinished_at_return: tr.unfinished_at_return,
                 log_hash,
             }
@@ -212,6 +214,7 @@ pub fn run_sim(prog: &Prog, kind: Kind, plan: &Plan, strat: Strat, seed: u64, re
                 tasks: ar.tasks,
                 max_pending_gates: ar.max_pending_gates,
                 cancel_with_live_tasks: ar.cancel_with_live_tasks,
+                stale_wakes: ar.stale_wakes,
                 unfinished_at_return: 0,
                 log_hash,
             }
